@@ -170,8 +170,8 @@ def explore(run, cellname, gdim, quick):
     # L4 (comb): multiply the triple products by reciprocal powers and one more Jacobian factor; sums of rewritten products
     c = []
     src = [s for s in l3 if s.recipe[0] == "mul"]
-    if quick:
-        src = sorted(src, key=lambda s: (len(repr(s.recipe)), repr(s.recipe)))[:1500]
+    # comb level: the triple products with the shortest recipes (all of them is 2-3 million candidates per mesh)
+    src = sorted(src, key=lambda s: (len(repr(s.recipe)), repr(s.recipe)))[: (1500 if quick else 20000)]
     rec = [("div", ("num", 1), ("t", "detJ")), ("pow", ("t", "detJ"), ("num", -2)), ("pow", ("pow", ("t", "detJ"), ("num", 2)), ("num", 0.5))]
     for s in src:
         for rr in rec:
